@@ -344,12 +344,12 @@ theorem share_ok_only_for_holder (h₁ h₂ : List Ev) (m rid part : Nat) (s : S
   exact wireRes_check hc
 
 /-- **At Close unacknowledged records are released.** When `Close` returns, every record the member was handed
-without a final decision is covered by a release batch the member sent, or the member's callback reported an
-error for the partition while closing. -/
+without a final decision is covered by a release batch the member sent after it was handed the record, or the
+member's callback reported an error for the partition while closing. -/
 theorem share_close_releases (h₁ h₂ : List Ev) (m : Nat) (s : St)
     (hacc : Model.Share.run {} (h₁ ++ Ev.closed m :: h₂) = some s) :
     ∀ r ∈ (stateAt h₁).openRecs, r.1 = m →
-      (∃ b ∈ (stateAt h₁).batches, b.m = m ∧ b.part = r.2.1 ∧ b.first ≤ r.2.2 ∧ r.2.2 ≤ b.last ∧ b.ty = 2) ∨
+      (∃ b ∈ batchesSince (stateAt h₁) r.2.2.2, b.m = m ∧ b.part = r.2.1 ∧ b.first ≤ r.2.2.1 ∧ r.2.2.1 ≤ b.last ∧ b.ty = 2) ∨
       (m, r.2.1) ∈ (stateAt h₁).closeErr := by
   obtain ⟨s₁, h1, hc, _⟩ := run_split hacc
   rw [stateAt_of_run h1]
